@@ -329,11 +329,10 @@ fn run_step(st: &mut State, step: &Value) -> Value {
     let mut ev: Map<String, Value> = step.as_object().unwrap().clone();
 
     // conditional steps (data-dependent control flow): executed only when the last comparison matches
+    let mut execute = true;
     if let Some(w) = step.get("when").and_then(|w| w.as_bool()) {
         if w != st.last_cmp {
-            ev.insert("skipped".into(), json!(true));
-            ev.insert("panic".into(), json!(false));
-            return Value::Object(ev);
+            execute = false;
         }
     }
     if op != "reset" && args.iter().any(|a| !st.has(*a)) {
@@ -341,7 +340,7 @@ fn run_step(st: &mut State, step: &Value) -> Value {
         ev.insert("panic".into(), json!(false));
         return Value::Object(ev);
     }
-    ev.insert("skipped".into(), json!(false));
+    ev.insert("skipped".into(), json!(!execute));
 
     let mut panicked = false;
     let mut with_grads = false;
@@ -359,7 +358,9 @@ fn run_step(st: &mut State, step: &Value) -> Value {
         };
     }
 
-    match op.as_str() {
+    let opx = if execute { op.as_str() } else { "nop" };
+    match opx {
+        "nop" => {}
         "reset" => {
             st.model = None;
             st.hs.clear();
